@@ -302,7 +302,9 @@ async def _default_expect_handler(request: Request) -> None:
             # Reset output_size as we haven't started the main body yet.
             request.writer.output_size = 0
         else:
-            raise HTTPExpectationFailed(text="Unknown Expect: %s" % expect)
+            # The value may hold bytes that are not UTF-8 (lone surrogates)
+            shown = expect.encode("utf-8", "backslashreplace").decode("utf-8")
+            raise HTTPExpectationFailed(text="Unknown Expect: %s" % shown)
 
 
 class Resource(AbstractResource):
